@@ -69,3 +69,15 @@ def oracle_search(rng, budget, tier):
 
 def known_match(f, known):
     return None
+
+
+MANIFEST = {
+    'text': 'Theorem (all graphs, no size bound): whenever the Gallina transcription of util._bipartite_match returns, the result is a '
+            'one-to-one set of feasible pairs and no larger one exists (Hopcroft-Karp augmentation/layering invariants + Koenig cover), '
+            'and its size is the declarative maximum max_size, which is invariant under reordering. The model is tied to the code by an '
+            'exact-dict correspondence evaluated inside Coq (all graphs up to 3x3/3x4 plus alternating-path-rich random graphs).',
+    'design_ref': 'DESIGN.md section 6, C05',
+    'level_note': 'Trusted: Coq kernel + vm_compute; the correspondence harness; CPython dict order. Partial correctness: termination within the '
+                  'fuel is observed by correspondence, not proved. Graph construction (match_events, match_notes) is tied by correspondence units.',
+    'technique': 'Coq proof (invariants + Koenig certificate) on a Gallina model of Hopcroft-Karp; model/code correspondence by vm_compute',
+}
